@@ -7,12 +7,19 @@
 (* outcomes (ok / ok0: success with the zero value / err / "ctxerr": returns its context's    *)
 (* error once that context is cancelled; "late success": ok after the initiator's context    *)
 (* was cancelled) and the callers' cancellations are environment actions.                    *)
+(* Fine = TRUE: the granularity of sched.Exec.ParkUnl executions: the END of a critical        *)
+(* section of o.mtx is a scheduling point too.  For a caller nothing changes (its section CS   *)
+(* and the select of prom.Await are separate actions anyway: the select may be entered with    *)
+(* both the result and the cancellation ready); the worker's error path splits into the        *)
+(* `o.prom = nil` section (ErrCS) and the later `ctx.Err()` decision + swap (ErrSet), so a      *)
+(* cancellation or a new Resolve can land in between.  Model check only.                       *)
 EXTENDS OnceP, Integers
 
 CONSTANTS
     Prog,       \* Prog[c]: sequence of [op, c] records: op = "resolve", c: context may be cancelled
     MaxCalls,   \* bound on function calls: call MaxCalls can only succeed
     Outs,       \* outcomes the function may choose from: subset of {"ok", "ok0", "err", "ctxerr"}
+    Fine,       \* TRUE: the end of a critical section is a scheduling point too (see above)
     EagerWake
 
 Callers == 1..Len(Prog)
@@ -22,7 +29,7 @@ Id(c, j) == c * 100 + j
 VARIABLES
     prom,     \* o.prom: 0 = nil, w = the promise created for worker w
     nw,       \* workers spawned so far
-    wpc,      \* worker -> "none" | "spawned" | "infn" | "errcs" | "set1" | "set2" | "done"
+    wpc,      \* worker -> "none" | "spawned" | "infn" | "errcs" | "errset" (Fine) | "set1" | "set2" | "done"
     winit,    \* worker -> call id whose context the function runs with
     wres,     \* worker -> <<>> | <<v, e>>: the pair its SetResult carries (e: "nil" | "E" | "C")
     wclosed,  \* worker -> done channel of its promise closed
@@ -139,9 +146,20 @@ ErrCS(w) ==
     /\ Gate
     /\ wpc[w] = "errcs"
     /\ prom' = IF prom = w THEN 0 ELSE prom
+    /\ IF Fine
+       THEN wpc' = [wpc EXCEPT ![w] = "errset"] /\ UNCHANGED wres
+       ELSE /\ wres' = [wres EXCEPT ![w] = IF winit[w] \in cctx THEN <<0, "C">> ELSE <<0, "E">>]
+            /\ wpc' = [wpc EXCEPT ![w] = "set1"]
+    /\ UNCHANGED <<nw, winit, wclosed, pc, ip, joined, cctx, pvars>>
+
+\* Fine only: the worker was parked at the end of the error path's critical section; now
+\* ctx.Err() decides what SetResult carries, and the swap is done
+ErrSet(w) ==
+    /\ Gate
+    /\ wpc[w] = "errset"
     /\ wres' = [wres EXCEPT ![w] = IF winit[w] \in cctx THEN <<0, "C">> ELSE <<0, "E">>]
     /\ wpc' = [wpc EXCEPT ![w] = "set1"]
-    /\ UNCHANGED <<nw, winit, wclosed, pc, ip, joined, cctx, pvars>>
+    /\ UNCHANGED <<prom, nw, winit, wclosed, pc, ip, joined, cctx, pvars>>
 
 SetWrite(w) ==
     /\ Gate
@@ -159,7 +177,7 @@ SetClose(w) ==
 -----------------------------------------------------------------------------
 Next ==
     \/ \E c \in Callers : Call(c) \/ CS(c) \/ AwRes(c) \/ AwCtx(c) \/ Cancel(c)
-    \/ \E w \in Workers : Start(w) \/ ErrCS(w) \/ SetWrite(w) \/ SetClose(w)
+    \/ \E w \in Workers : Start(w) \/ ErrCS(w) \/ ErrSet(w) \/ SetWrite(w) \/ SetClose(w)
     \/ \E w \in Workers : \E out \in {"ok", "ok0", "err", "ctxerr"} : FnRet(w, out)
 
 Spec == Init /\ [][Next]_vars
